@@ -38,6 +38,9 @@ import (
 //        phase 1: one goroutine per program plus a ticker goroutine; phase 2: K goroutines call Stop at once.
 //        The whole program is run R times (≥1) on fresh syncers — schedules differ — and the first failing run is reported.
 //        → {"bytes":…,"records":…}       (what reached the sink after the final Stop+Sync)
+//   {"k":"tickrace","size":S,"slow":µs,"pre":n,"big":m}   a tick that arrives while a writer holds the mutex inside a
+//        slow sink write (a Write of m > S bytes after n buffered ones): the tick must still be processed — queued
+//        behind the writer — i.e. the sink is synced after that write and nothing stays buffered   (oracle only)
 //   {"k":"crash","size":S,"seed":…,"interval_us":…,"kill_us":…}   child process writing records through a
 //        BufferedWriteSyncer over a file, Sync acknowledgements on its stdout, SIGKILL after kill_us   (oracle only)
 
@@ -57,6 +60,8 @@ type c12Op struct {
 	Ticks    int        `json:"ticks"`
 	Stoppers int        `json:"stoppers"`
 	Rep      int        `json:"rep"`
+	Pre      int        `json:"pre"`
+	Big      int        `json:"big"`
 	Seed     uint64     `json:"seed"`
 	Interval int        `json:"interval_us"`
 	Kill     int        `json:"kill_us"`
@@ -89,6 +94,14 @@ func (op c12Op) wire() any {
 			Stoppers int        `json:"stoppers"`
 			Rep      int        `json:"rep"`
 		}{op.K, op.Size, op.Slow, op.Progs, op.Ticks, op.Stoppers, op.Rep}
+	case "tickrace":
+		return struct {
+			K    string `json:"k"`
+			Size int    `json:"size"`
+			Slow int    `json:"slow"`
+			Pre  int    `json:"pre"`
+			Big  int    `json:"big"`
+		}{op.K, op.Size, op.Slow, op.Pre, op.Big}
 	case "crash":
 		return struct {
 			K        string `json:"k"`
@@ -312,6 +325,16 @@ func c12Gen(r *Rand, tier string, emit func(op any)) {
 		emitOp(op)
 	}
 
+	// 4b. a tick arriving while a writer is inside a slow sink write
+	nRace := 12
+	if thorough {
+		nRace = 200
+	}
+	for i := 0; i < nRace; i++ {
+		size := Pick(r, []int{8, 16, 64, 256})
+		emitOp(c12Op{K: "tickrace", Size: size, Slow: Pick(r, []int{500, 1000, 3000}), Pre: 1 + r.Intn(size), Big: size + 1 + r.Intn(2*size)})
+	}
+
 	// 5. kill -9 of a writing process
 	nCrash := 6
 	if thorough {
@@ -351,6 +374,8 @@ type c12Sink struct {
 	overlap atomic.Bool
 	slow    time.Duration
 	taken   atomic.Int64
+	hookLen int // a Write of exactly this length announces itself on `entered` before it sleeps
+	entered chan struct{}
 }
 
 func newC12Sink(wo [][]int, so []int) *c12Sink {
@@ -362,6 +387,12 @@ func (s *c12Sink) Write(p []byte) (int, error) {
 		s.overlap.Store(true)
 	}
 	defer s.inCall.Add(-1)
+	if s.hookLen > 0 && len(p) == s.hookLen && s.entered != nil {
+		select {
+		case s.entered <- struct{}{}:
+		default:
+		}
+	}
 	if s.slow > 0 {
 		time.Sleep(s.slow)
 	}
@@ -851,6 +882,8 @@ func c12Exec(raw json.RawMessage) Result {
 		return c12Bufio(op)
 	case "conc":
 		return c12Conc(op)
+	case "tickrace":
+		return c12TickRace(op)
 	case "crash":
 		return c12Crash(op)
 	}
@@ -1315,6 +1348,82 @@ func c12ConcOnce(op c12Op) Result {
 	}
 	return Result{Impl: map[string]any{"bytes": len(stream), "records": records}, Oracle: o, Nontrivial: len(op.Progs) >= 2 && records >= 2,
 		Shape: fmt.Sprintf("conc/g%d/stoppers%d/mixed=%v/slow=%v", bucket(len(op.Progs)), bucket(op.Stoppers), stopInPhase1, op.Slow > 0)}
+}
+
+// ---------------------------------------------------------------- a tick under contention
+
+func c12TickRace(op c12Op) Result {
+	if op.Size <= 0 || op.Pre <= 0 || op.Pre > op.Size || op.Big <= op.Size || op.Big > 1<<20 || op.Slow < 0 || op.Slow > 100000 {
+		return Result{Impl: map[string]any{"out_of_scope": true}, Oracle: ok(), NoModel: true, Shape: "tickrace/out-of-scope"}
+	}
+	sink := newC12Sink(nil, nil)
+	sink.slow = time.Duration(op.Slow) * time.Microsecond
+	sink.hookLen = op.Big
+	sink.entered = make(chan struct{}, 1)
+	clk := &c12Clock{ch: make(chan time.Time)}
+	b := &zapcore.BufferedWriteSyncer{WS: sink, Size: op.Size, FlushInterval: time.Hour, Clock: clk}
+	o := ok()
+	fail := func(or Oracle) {
+		if o.OK {
+			o = or
+		}
+	}
+	dead := func(what string) Result {
+		c12Reap(b)
+		return Result{Impl: map[string]any{"deadlock": true}, Oracle: bad("C12:deadlock", "%s: %s", what, c12HangWhy()), NoModel: true, Nontrivial: true, Shape: "tickrace/deadlock"}
+	}
+	pre, big := c12Record(0, 0, op.Pre), c12Record(1, 0, op.Big)
+	pre, big = pre[:op.Pre], big[:op.Big]
+	if !c12Call(func() { _, _ = b.Write(pre) }) {
+		return dead("the first Write did not return")
+	}
+	writerDone := make(chan struct{})
+	c12Work(func() { defer close(writerDone); _, _ = b.Write(big) })
+	select {
+	case <-sink.entered: // the writer is inside the sink, holding the syncer's mutex, for op.Slow µs
+	case <-time.After(c12Watchdog()):
+		c12NoteHang()
+		return dead("the big Write never reached the sink")
+	}
+	m := sink.mark()
+	if !c12SendTick(clk, b) {
+		return dead("the flush loop did not take the tick")
+	}
+	select {
+	case <-writerDone:
+	case <-time.After(c12Watchdog()):
+		c12NoteHang()
+		return dead("the big Write did not return")
+	}
+	if !c12AwaitLoopIdle(b) {
+		return dead("the flush loop did not finish processing the tick")
+	}
+	// the tick has been processed: its Sync must have reached the sink (after the write it queued behind) and all
+	// bytes accepted before the tick was taken — the first write — must be in the sink
+	evs := sink.since(m)
+	synced := false
+	for _, e := range evs {
+		if e.sync {
+			synced = true
+		}
+	}
+	if !synced {
+		fail(bad("C12:tick-not-synced", "a tick taken while a writer held the mutex (inside a %d µs sink write) was dropped: no WS.Sync followed", op.Slow))
+	}
+	if got := sink.taken.Load(); got < int64(op.Pre) {
+		fail(bad("C12:tick-not-flushed", "after a tick under contention only %d of the %d bytes accepted before it are in the sink", got, op.Pre))
+	}
+	if !c12Call(func() { _ = b.Stop() }) {
+		return dead("Stop did not return")
+	}
+	if c12LoopAlive(b) {
+		fail(bad("C12:loop-alive-after-stop", "a flushLoop goroutine is still running after Stop returned"))
+		c12Reap(b)
+	}
+	if got := sink.taken.Load(); got != int64(op.Pre+op.Big) {
+		fail(bad("C12:stream-incomplete", "after Stop the sink holds %d bytes, %d were accepted", got, op.Pre+op.Big))
+	}
+	return Result{Impl: map[string]any{"ok": o.OK}, Oracle: o, NoModel: true, Nontrivial: true, Shape: fmt.Sprintf("tickrace/size%d", bucket(op.Size))}
 }
 
 // ---------------------------------------------------------------- kill -9
